@@ -127,10 +127,15 @@ reg("C12", MC, "exhaustive enumeration of configurations plus stateless explorat
     "compared with an independently fitted fresh estimator on the training rows and scikit-learn's public metric on the weighted test rows, and "
     "required to differ from three wrong alternatives (non-vacuity). Delayed execution: the explorer replaces the dask scheduler, runs every task "
     "in its own thread under a baton and enumerates every interleaving at the fit/score boundary (iterative preemption bounding; all 90 schedules "
-    "of 3 splits in thorough, bound 2 in quick) and every task order of the SplineCV graph; a fake client enumerates every completion order. "
+    "of 3 splits in thorough, bound 2 in quick) and every task order of the SplineCV graph; line-granular exploration (sys.settrace in the task "
+    "threads) makes every executed line of every source file under verde/ a scheduling point - preemption bound 1 for Trend, KNeighbors and "
+    "Spline tasks in quick, bound 2 (about 37 000 schedules per estimator, the bounded space dealt out to the workers) plus Vector, Chain and "
+    "three tasks in thorough; a fake client enumerates every completion order and an environment-driven client every answer sequence with 1 "
+    "(thorough 2) deviations; the caller reconfiguring the estimator between graph construction and computation is a further event. "
     "A failing schedule is replayed twice before it is reported.",
-    "Interleavings at estimator method boundaries under the GIL; a real distributed cluster is out of reach (fake client instead).",
-    "DESIGN.md section 5, C12 and section 2 (E3)")
+    "Interleavings under the GIL at line granularity of the library's Python code (not inside numpy / BLAS calls); a real distributed cluster "
+    "is out of reach (fake clients instead).",
+    "DESIGN.md section 5, C12, section 2 (E3) and section 10.1 / 10.4")
 reg("C20", MC, "explicit-state breadth-first search over estimator call histories (depth 3/4) + exhaustive catalogue of call templates x array-slot variants",
     "Every public callable and estimator method is called from valid templates with each array argument writable / read-only / non-contiguous: "
     "inputs must be byte-wise unchanged and results bitwise identical. For 13 estimator specs every history up to depth 3 (thorough 4) over the "
